@@ -20,7 +20,7 @@ RULE = ("all valid dies with <=2 regions (kinds '#', 'dsp', fixed) on a 3x3-cell
         "ordered triples of calls from an 8-call menu on one die object for dies with <=1 region, and a grid followed by all ordered pairs of calls on empty dies. Non-trivial = calls that had to split at least one region (count or ratio not yet met); distinct by construction.")
 ASSUMPTIONS = ["aspect ratios compared with relative 1e-9; coordinates with 1e-9*scale",
                "r restricted to the admissible range (> sqrt 2; the API asserts r > 1.415)"]
-BOUNDS = {'quick': 'n<=12; 3x3 grid HALF/DEC1, stretched 3x2', 'thorough': 'n<=40; adds DEC3/DEC7/INT and 4x3 grid with <=2 regions'}
+BOUNDS = {'quick': 'n<=12; 3x3 grid HALF/DEC1, stretched 3x2', 'thorough': 'n<=40; adds DEC3/DEC7/INT and 4x3 grid with <=2 regions; all 4-call sequences over a 5-call menu, grid + all triples of calls'}
 
 RS = [1.42, 1.5, 1.7, 1.99, 2.0, 3.0]
 
@@ -93,12 +93,21 @@ def shards(tier):
             out.append(dict(kind='seq', fam=fam, W=W, H=H, lo=lo, hi=min(nd, lo + 8)))
     for k in range(len(GRID_DIES)):
         out.append(dict(kind='gridseq', die=k))
+    if tier == 'thorough':
+        # four calls in a row (reduced menu) and a grid followed by three calls
+        for (fam, W, H) in SEQ_FAMS[:2]:
+            nd = len(die_descriptions(W, H, 1))
+            for lo in range(0, nd, 4):
+                out.append(dict(kind='seq', fam=fam, W=W, H=H, lo=lo, hi=min(nd, lo + 4), L=4))
+        for k in range(len(GRID_DIES)):
+            out.append(dict(kind='gridseq', die=k, L=3))
     return out
 
 
 # operation sequences: every ordered triple of calls from CALLS on every die with <=1 region; on empty dies a grid first
 SEQ_FAMS = (('HALF', 3, 3), ('DEC1', 3, 2), ('S12', 2, 2))
 CALLS = [(1.5, 1), (1.5, 3), (2.0, 2), (2.0, 5), (3.0, 1), (3.0, 12), (1.42, 7), (1.7, 4)]
+CALLS4 = [(1.5, 1), (1.5, 3), (2.0, 2), (3.0, 12), (1.42, 7)]
 GRID_DIES = [(4, 4), (6, 3), (1, 1), (10.5, 2.5), (0.3, 0.7)]
 GRIDS = [(1, 4), (4, 1), (2, 3), (3, 2), (2, 2), (6, 2), (1, 2), (3, 3)]
 
@@ -315,7 +324,8 @@ def run_shard(shard, tier, res):
     elif shard['kind'] == 'seq':
         fam, W, H = shard['fam'], shard['W'], shard['H']
         for items in die_descriptions(W, H, 1)[shard['lo']:shard['hi']]:
-            for calls in itertools.product(CALLS, repeat=3):
+            L = shard.get('L', 3)
+            for calls in itertools.product(CALLS if L == 3 else CALLS4, repeat=L):
                 reset_frame_state()
                 check_case(dict(kind='seq', fam=fam, W=W, H=H, items=[[list(a), k] for a, k in items],
                                 calls=[list(c) for c in calls]), res)
@@ -323,7 +333,7 @@ def run_shard(shard, tier, res):
     else:
         w, h = GRID_DIES[shard['die']]
         for g in GRIDS:
-            for calls in itertools.product(CALLS, repeat=2):
+            for calls in itertools.product(CALLS, repeat=shard.get('L', 2)):
                 reset_frame_state()
                 check_case(dict(kind='seq', w=w, h=h, calls=[['grid', g[0], g[1]]] + [list(c) for c in calls]), res)
         res.samples.append(dict(kind='seq', w=w, h=h, calls=[['grid', 1, 4], [1.5, 3]]))
